@@ -266,15 +266,15 @@ func (x *Exec) receiver(s *State, fr *Frame, sel *ast.SelectorExpr, si *types.Se
 				if p == memName(xt) {
 					p = ""
 				}
-				return &Scalar{T: l.addr, Prov: p}, rt
+				return &PtrV{Rgn: l.rgn, Off: l.off, Prov: p}, rt
 			}
 			unsup("pointer-receiver call on non-addressable or non-escaping value %s", exprText(x.w.Fset, sel.X))
 		case !wantPtr && havePtr:
-			pv := x.expr(s, fr, sel.X).(*Scalar)
-			x.nilCheck(s, fr, pv.T, sel.Pos(), exprText(x.w.Fset, sel))
+			pv := x.expr(s, fr, sel.X).(*PtrV)
+			x.nilCheck(s, fr, pv.Rgn, sel.Pos(), exprText(x.w.Fset, sel))
 			pt := xt.Underlying().(*types.Pointer)
 			pl := x.ptrLoc(pv, pt.Elem())
-			return x.load(s, pl.prefix, pt.Elem(), pv.T), rt
+			return x.load(s, pl.prefix, pt.Elem(), pl.rgn, pl.off), rt
 		default:
 			return x.expr(s, fr, sel.X), rt
 		}
@@ -289,8 +289,8 @@ func (x *Exec) receiver(s *State, fr *Frame, sel *ast.SelectorExpr, si *types.Se
 	}
 	for _, i := range idx {
 		if pt, ok := t.Underlying().(*types.Pointer); ok {
-			pv := x.readLoc(s, loc, t).(*Scalar)
-			x.nilCheck(s, fr, pv.T, sel.Pos(), exprText(x.w.Fset, sel))
+			pv := x.readLoc(s, loc, t).(*PtrV)
+			x.nilCheck(s, fr, pv.Rgn, sel.Pos(), exprText(x.w.Fset, sel))
 			t = pt.Elem()
 			loc = x.ptrLoc(pv, t)
 		}
@@ -300,7 +300,7 @@ func (x *Exec) receiver(s *State, fr *Frame, sel *ast.SelectorExpr, si *types.Se
 		case *varLoc:
 			loc = &varLoc{obj: l.obj, path: append(append([]int(nil), l.path...), i)}
 		case *heapLoc:
-			loc = &heapLoc{prefix: l.prefix + "." + f.Name(), addr: l.addr}
+			loc = &heapLoc{prefix: l.prefix + "." + f.Name(), rgn: l.rgn, off: l.off}
 		case *valLoc:
 			loc = &valLoc{v: l.v.(*StructV).F[i]}
 		}
@@ -310,13 +310,14 @@ func (x *Exec) receiver(s *State, fr *Frame, sel *ast.SelectorExpr, si *types.Se
 	switch {
 	case wantPtr && !havePtr:
 		if hl, ok := loc.(*heapLoc); ok {
-			return &Scalar{T: hl.addr, Prov: hl.prefix}, rt
+			return &PtrV{Rgn: hl.rgn, Off: hl.off, Prov: hl.prefix}, rt
 		}
 		unsup("promoted pointer-receiver call")
 	case !wantPtr && havePtr:
-		pv := x.readLoc(s, loc, t).(*Scalar)
+		pv := x.readLoc(s, loc, t).(*PtrV)
 		pt := t.Underlying().(*types.Pointer)
-		return x.load(s, memName(pt.Elem()), pt.Elem(), pv.T), rt
+		pl := x.ptrLoc(pv, pt.Elem())
+		return x.load(s, pl.prefix, pt.Elem(), pl.rgn, pl.off), rt
 	}
 	return x.readLoc(s, loc, t), rt
 }
@@ -609,7 +610,19 @@ func (x *Exec) bindParams(s *State, nf *Frame, recvFL *ast.FieldList, ft *ast.Fu
 								continue
 							}
 						}
-						unsup("variadic call with packed arguments")
+						// pack the remaining arguments into a fresh slice
+						st, ok := obj.Type().Underlying().(*types.Slice)
+						if !ok || obj == nil {
+							unsup("variadic call with packed arguments")
+						}
+						n := int64(len(args) - i)
+						rgn := x.newRegion(s, memName(st.Elem()), "alloc")
+						for k := int64(0); k < n; k++ {
+							x.store(s, memName(st.Elem()), st.Elem(), rgn, I64(k), args[i+int(k)])
+						}
+						x.declare(s, nf, obj, &SliceV{Rgn: rgn, Off: I64(0), Len: I64(n), Cap: I64(n)})
+						i = len(args)
+						continue
 					}
 					if obj != nil {
 						x.declare(s, nf, obj, x.zero(s, obj.Type()))
@@ -766,7 +779,7 @@ func (x *Exec) modularCall(s *State, fr *Frame, c *Contract, recv Value, args []
 		// nothing changes
 	} else if len(c.Assigns) > 0 {
 		for _, a := range c.Assigns {
-			x.havocLvalue(s, nf, a.Expr)
+			x.havocLvalue(s, nf, a.Expr, strings.HasSuffix(a.Text, "[*]"))
 		}
 	} else {
 		x.havocAllMem(s, "callee "+name+" has no assigns clause")
@@ -833,19 +846,19 @@ func (x *Exec) writesHeap(c *Contract) bool {
 }
 
 // havocLvalue forgets the location(s) denoted by an assigns entry.
-func (x *Exec) havocLvalue(s *State, fr *Frame, e ast.Expr) {
+func (x *Exec) havocLvalue(s *State, fr *Frame, e ast.Expr, elems bool) {
 	t := fr.info.TypeOf(e)
 	x.noObl++
 	defer func() { x.noObl-- }()
-	if st, ok := t.Underlying().(*types.Slice); ok && !(x.opaque && isByteSlice(t)) {
+	if st, ok := t.Underlying().(*types.Slice); ok && elems && !(x.opaque && isByteSlice(t)) {
 		// elements of the slice (up to cap)
 		sv := x.expr(s, fr, e).(*SliceV)
-		x.havocRange(s, st.Elem(), sv.Ptr, sv.Cap)
+		x.havocRange(s, st.Elem(), sv.Rgn, sv.Off, sv.Cap)
 		return
 	}
 	if at, ok := t.Underlying().(*types.Array); ok {
 		av := x.expr(s, fr, e).(*ArrayRef)
-		x.havocRange(s, at.Elem(), av.Base, I64(av.N))
+		x.havocRange(s, at.Elem(), av.Rgn, av.Off, I64(av.N))
 		return
 	}
 	loc := x.lvalue(s, fr, e)
@@ -1019,13 +1032,13 @@ func (x *Exec) builtin(s *State, fr *Frame, name string, call *ast.CallExpr) Val
 		switch src := srcv.(type) {
 		case *SliceV:
 			n := x.ctx.Share(Ite(Slt(src.Len, dst.Len), src.Len, dst.Len))
-			x.copyElems(s, st.Elem(), dst.Ptr, src.Ptr, n)
+			x.copyElems(s, st.Elem(), dst.Rgn, dst.Off, src.Rgn, src.Off, n)
 			return &Scalar{T: n}
 		case *Scalar:
 			// copy from string
 			ln := x.strlen(src.T)
 			n := x.ctx.Share(Ite(Slt(ln, dst.Len), ln, dst.Len))
-			x.havocRange(s, st.Elem(), dst.Ptr, n)
+			x.havocRange(s, st.Elem(), dst.Rgn, dst.Off, n)
 			return &Scalar{T: n}
 		}
 		unsup("copy source")
@@ -1062,10 +1075,9 @@ func (x *Exec) builtin(s *State, fr *Frame, name string, call *ast.CallExpr) Val
 				s.assume(Not(x.bytesIsNil(b)))
 				return &Scalar{T: b}
 			}
-			base := x.ctx.Fresh("make", SBV64)
-			x.addRegion(s, region{mem: memName(u.Elem()), base: base, size: cp, tag: "alloc"}, true)
-			x.fillZero(s, u.Elem(), base, cp)
-			return &SliceV{Ptr: base, Len: ln, Cap: cp}
+			rgn := x.newRegion(s, memName(u.Elem()), "alloc")
+			x.fillZero(s, u.Elem(), rgn, I64(0), cp)
+			return &SliceV{Rgn: rgn, Off: I64(0), Len: ln, Cap: cp}
 		case *types.Map, *types.Chan:
 			for _, a := range call.Args[1:] {
 				x.expr(s, fr, a)
@@ -1076,15 +1088,14 @@ func (x *Exec) builtin(s *State, fr *Frame, name string, call *ast.CallExpr) Val
 		}
 	case "new":
 		t := info.TypeOf(call.Args[0])
-		addr := x.ctx.Fresh("new$"+sanitize(memName(t)), SBV64)
-		x.addRegion(s, region{mem: memName(t), base: addr, size: I64(1), tag: "alloc"}, true)
-		x.store(s, memName(t), t, addr, x.zero(s, t))
-		return &Scalar{T: addr}
+		rgn := x.newRegion(s, memName(t), "alloc")
+		x.store(s, memName(t), t, rgn, I64(0), x.zero(s, t))
+		return &PtrV{Rgn: rgn, Off: I64(0)}
 	case "clear":
 		t := info.TypeOf(call.Args[0])
 		if st, ok := t.Underlying().(*types.Slice); ok {
 			sv := x.expr(s, fr, call.Args[0]).(*SliceV)
-			x.fillZero(s, st.Elem(), sv.Ptr, sv.Len)
+			x.fillZero(s, st.Elem(), sv.Rgn, sv.Off, sv.Len)
 			return &TupleV{}
 		}
 		x.expr(s, fr, call.Args[0])
@@ -1098,29 +1109,29 @@ func (x *Exec) builtin(s *State, fr *Frame, name string, call *ast.CallExpr) Val
 		return &TupleV{}
 	case "unsafe.Pointer":
 	case "unsafe.Add":
-		p := x.expr(s, fr, call.Args[0]).(*Scalar)
+		p := x.expr(s, fr, call.Args[0]).(*PtrV)
 		kv := x.expr(s, fr, call.Args[1]).(*Scalar)
 		k := Resize(kv.T, 64, isSigned(info.TypeOf(call.Args[1])))
 		if p.Prov != "uint8" {
 			unsup("unsafe.Add on pointer into %q memory", p.Prov)
 		}
-		return &Scalar{T: x.ctx.Share(Add64(p.T, k)), Prov: p.Prov}
+		return &PtrV{Rgn: p.Rgn, Off: x.ctx.Share(Add64(p.Off, k)), Prov: p.Prov}
 	case "unsafe.SliceData":
 		sv, ok := x.expr(s, fr, call.Args[0]).(*SliceV)
 		if !ok {
 			unsup("unsafe.SliceData of opaque slice")
 		}
 		st := info.TypeOf(call.Args[0]).Underlying().(*types.Slice)
-		return &Scalar{T: sv.Ptr, Prov: memName(st.Elem())}
+		return &PtrV{Rgn: sv.Rgn, Off: sv.Off, Prov: memName(st.Elem())}
 	case "unsafe.Slice":
-		p := x.expr(s, fr, call.Args[0]).(*Scalar)
+		p := x.expr(s, fr, call.Args[0]).(*PtrV)
 		nv := x.expr(s, fr, call.Args[1]).(*Scalar)
 		n := Resize(nv.T, 64, isSigned(info.TypeOf(call.Args[1])))
 		pt := info.TypeOf(call.Args[0]).Underlying().(*types.Pointer)
 		if p.Prov != "" && p.Prov != memName(pt.Elem()) {
 			unsup("unsafe.Slice reinterpreting %s memory as %s", p.Prov, pt.Elem())
 		}
-		return &SliceV{Ptr: p.T, Len: n, Cap: n}
+		return &SliceV{Rgn: p.Rgn, Off: p.Off, Len: n, Cap: n}
 	case "unsafe.Sizeof", "unsafe.Offsetof", "unsafe.Alignof":
 		unsup("%s should be constant", name)
 	case "unsafe.String", "unsafe.StringData":
@@ -1152,16 +1163,16 @@ func (x *Exec) appendBuiltin(s *State, fr *Frame, call *ast.CallExpr) Value {
 	base := bv.(*SliceV)
 	et := st.Elem()
 	var addN Term
-	var writeNew func(dst Term)
+	var writeNew func(dstR, dstO Term)
 	if call.Ellipsis.IsValid() {
 		srcv := x.expr(s, fr, call.Args[1])
 		switch src := srcv.(type) {
 		case *SliceV:
 			addN = src.Len
-			writeNew = func(dst Term) { x.copyElems(s, et, dst, src.Ptr, src.Len) }
+			writeNew = func(dstR, dstO Term) { x.copyElems(s, et, dstR, dstO, src.Rgn, src.Off, src.Len) }
 		case *Scalar: // string...
 			addN = x.strlen(src.T)
-			writeNew = func(dst Term) { x.havocRange(s, et, dst, addN) }
+			writeNew = func(dstR, dstO Term) { x.havocRange(s, et, dstR, dstO, addN) }
 		default:
 			unsup("append spread of %T", srcv)
 		}
@@ -1172,17 +1183,34 @@ func (x *Exec) appendBuiltin(s *State, fr *Frame, call *ast.CallExpr) Value {
 			vals = append(vals, x.convertTo(s, fr, v, info.TypeOf(a), et))
 		}
 		addN = I64(int64(len(vals)))
-		writeNew = func(dst Term) {
+		writeNew = func(dstR, dstO Term) {
 			for i, v := range vals {
-				x.store(s, memName(et), et, Add64(dst, I64(int64(i))), v)
+				x.store(s, memName(et), et, dstR, Add64(dstO, I64(int64(i))), v)
 			}
 		}
 	}
 	newLen := x.ctx.Share(Add64(base.Len, addN))
 	fits := Sle(newLen, base.Cap)
 	if fits.IsC && fits.C != 0 {
-		writeNew(Add64(base.Ptr, base.Len))
-		return &SliceV{Ptr: base.Ptr, Len: newLen, Cap: base.Cap}
+		writeNew(base.Rgn, Add64(base.Off, base.Len))
+		return &SliceV{Rgn: base.Rgn, Off: base.Off, Len: newLen, Cap: base.Cap}
+	}
+	if !fits.IsC {
+		if grow, ok := x.decide(); ok {
+			if !grow {
+				s.assume(fits)
+				writeNew(base.Rgn, Add64(base.Off, base.Len))
+				return &SliceV{Rgn: base.Rgn, Off: base.Off, Len: newLen, Cap: base.Cap}
+			}
+			s.assume(Not(fits))
+			nc := x.ctx.Fresh("append$cap", SBV64)
+			s.assume(Sle(newLen, nc))
+			s.assume(Ule(nc, BVLit(maxObj, 64)))
+			nb := x.newRegion(s, memName(et), "alloc")
+			x.copyElems(s, et, nb, I64(0), base.Rgn, base.Off, base.Len)
+			writeNew(nb, base.Len)
+			return &SliceV{Rgn: nb, Off: I64(0), Len: newLen, Cap: nc}
+		}
 	}
 	// in place
 	var inPlace *State
@@ -1191,30 +1219,30 @@ func (x *Exec) appendBuiltin(s *State, fr *Frame, call *ast.CallExpr) Value {
 		inPlace.assume(fits)
 		saved := *s
 		*s = *inPlace
-		writeNew(Add64(base.Ptr, base.Len))
+		writeNew(base.Rgn, Add64(base.Off, base.Len))
 		*inPlace = *s
 		*s = saved
 	}
 	// grow: fresh region, old contents copied
 	grow := s.fork()
 	grow.assume(Not(fits))
-	nb := x.ctx.Fresh("append$ptr", SBV64)
 	nc := x.ctx.Fresh("append$cap", SBV64)
+	var nb Term
 	grow.assume(Sle(newLen, nc))
 	grow.assume(Ule(nc, BVLit(maxObj, 64)))
 	{
 		saved := *s
 		*s = *grow
-		x.addRegion(s, region{mem: memName(et), base: nb, size: nc, tag: "alloc"}, true)
-		x.copyElems(s, et, nb, base.Ptr, base.Len)
-		writeNew(Add64(nb, base.Len))
+		nb = x.newRegion(s, memName(et), "alloc")
+		x.copyElems(s, et, nb, I64(0), base.Rgn, base.Off, base.Len)
+		writeNew(nb, base.Len)
 		*grow = *s
 		*s = saved
 	}
 	res := types.NewVar(token.NoPos, nil, "append$res", t)
-	grow.vars[res] = &SliceV{Ptr: nb, Len: newLen, Cap: nc}
+	grow.vars[res] = &SliceV{Rgn: nb, Off: I64(0), Len: newLen, Cap: nc}
 	if inPlace != nil {
-		inPlace.vars[res] = &SliceV{Ptr: base.Ptr, Len: newLen, Cap: base.Cap}
+		inPlace.vars[res] = &SliceV{Rgn: base.Rgn, Off: base.Off, Len: newLen, Cap: base.Cap}
 	}
 	m := x.merge(inPlace, grow)
 	out := m.vars[res]
